@@ -457,3 +457,16 @@ Definition qualify_agrees (c : qcase) : bool :=
   | QErr, None => true
   | _, _ => false
   end.
+
+(* is the case inside the hypotheses of the theorems of C03/Props.v? *)
+Definition theorem_guard (c : ccase) : bool :=
+  wf_names (cc_w c) && wf_refs (cc_w c) &&
+  match cc_sp c with Some sp => wf_spelling sp | None => false end.
+
+(* create_meets_spec instantiated: holds on every case inside the guard *)
+Definition theorem_instance (c : ccase) : bool :=
+  negb (theorem_guard c) ||
+  match cc_sp c with
+  | Some sp => spec_check (cc_w c) false sp (create (cc_w c) (render sp))
+  | None => true
+  end.
